@@ -130,3 +130,22 @@ add("C18",
     "DESIGN.md 5/C18", COMMON_TRUST,
     "contracts on the real functions; exhaustive enumeration up to a bound for the generators, real code on symbolic knots for the affine maps and the invariance (bounded)")
 ENGINE_S += ["C18"]
+
+add("C15",
+    "Frame analysis over the package AST (unbounded, all histories): the three private curve fields are assigned only by __init__, update and the two setters; no back "
+    "door; update() rebinds after the error test; no in-place KnotVector mutator is applied to a .knotvector attribute in curve-level code and the KnotVector "
+    "operators work on deep copies, so curves sharing a KnotVector object cannot affect each other. Dynamic part (bounded): all sequences of public operations up to "
+    "a depth bound from four start curves - consistency, atomicity of raising operations, operand integrity, partner curve unaffected. The symbolic runs of C04-C14 "
+    "check consistency and unchanged operands on every explored path.",
+    "DESIGN.md 5/C15", "Trusted: CPython; the frame analysis is syntactic (aliasing through local names is followed only for the patterns present in the code). "
+    "Rational update path: known finding D9.",
+    "frame / write-set analysis over the AST of the real package (unbounded) + exhaustive bounded histories on the real code")
+add("C16",
+    "Exactness ('no float is introduced, value equals the exact result') is an obligation of every symbolic run of C01-C14 (result untainted, normal-form equal to "
+    "the spec) for all numeric values per shape; this check adds concrete runs (bounded): every listed operation on Fraction data incl. scaled integers in "
+    "[2^63, 2^64) returns only int/Fraction after the same operation ran on floats in the same process; float runs agree to 1e-9 relative; a minimal point type "
+    "(point+point, scalar*point) suffices for evaluation, insertion, elevation, splitting; Linalg.invert exact for large integers. Float agreement beyond the samples is not decided (A1).",
+    "DESIGN.md 5/C16", COMMON_TRUST,
+    "exactness-taint postconditions on the symbolic runs (bounded in shape) + concrete representation-pair runs of the real code (bounded)")
+ENGINE_F += ["C15"]
+ENGINE_S += ["C15", "C16"]
